@@ -112,6 +112,28 @@ func init() {
 						}
 						l = append(l, pdus.TLV{Tag: tag, Len: uint16(ln), Val: r.Bytes(ln)})
 					}
+					if c.Idx%16 == 0 {
+						// several long values together: more than 65536 octets follow some triplet headers
+						l = nil
+						seen = map[uint16]bool{}
+						for _, ln := range [][]int{{65535, 10}, {10, 65535}, {40000, 40000}, {65535, 65535, 1}, {1, 65531, 2, 65531}}[c.Idx/16%5] {
+							tag := uint16(r.U32())
+							for seen[tag] {
+								tag++
+							}
+							seen[tag] = true
+							l = append(l, pdus.TLV{Tag: tag, Len: uint16(ln), Val: r.Bytes(ln)})
+						}
+						n = len(l)
+						// exactly this order on the wire, through all four parsers
+						wire := emit(l)
+						for _, p := range containerParsers() {
+							set, err, ok := runParser(c, p, wire)
+							if ok && (err != nil || pdus.CanonTLV(set) != pdus.CanonTLV(l)) {
+								c.Failf("wellformed-misparsed/"+p.name, "%s on a well-formed sequence of %d triplets with value lengths %v: err=%v, got %d parameters", p.name, len(l), lensOf(l), err, len(set))
+							}
+						}
+					}
 					want := pdus.CanonTLV(l)
 					// container -> bytes
 					tl := smpp.TLVs{}
@@ -339,4 +361,12 @@ func hasDup(l []pdus.TLV) bool {
 		seen[x.Tag] = true
 	}
 	return false
+}
+
+func lensOf(l []pdus.TLV) []int {
+	out := make([]int, len(l))
+	for i := range l {
+		out[i] = len(l[i].Val)
+	}
+	return out
 }
